@@ -132,10 +132,15 @@ fn leaf_sel(spec: &Value) -> LeafSel {
 
 /// spec tree -> carrier around real combinators (`None`: the real constructor refused it).
 pub fn build(t: &Value) -> Option<Node> {
+    build_scaled(t, 1)
+}
+
+/// every leaf weight multiplied by `scale` (the law depends on the ratios only: ScaleInvariant)
+pub fn build_scaled(t: &Value, scale: u64) -> Option<Node> {
     if t["t"] == "leaf" {
-        Some(Node::Leaf(Weighted::new(leaf_sel(t), u(&t["w"]) as u32)))
+        Some(Node::Leaf(Weighted::new(leaf_sel(t), u32::try_from(u(&t["w"]) * scale).expect("scaled weight fits u32"))))
     } else {
-        let (a, b) = (build(&t["a"])?, build(&t["b"])?);
+        let (a, b) = (build_scaled(&t["a"], scale)?, build_scaled(&t["b"], scale)?);
         WeightedPair::new(a, b).ok().map(|p| Node::Pair(Box::new(p)))
     }
 }
@@ -354,7 +359,7 @@ pub fn law(args: &[String]) -> i32 {
         let mut counts = vec![0u64; cells];
         let mut other = 0u64;
         if case["op"] == "select" {
-            let node = build(&case["tree"]).expect("law trees are constructible");
+            let node = build_scaled(&case["tree"], c["scale"].as_u64().unwrap_or(1)).expect("law trees are constructible");
             for _ in 0..n {
                 let ob = select_marker_tree(&case["tree"], &node, &pop, &mut rng);
                 match ob["m"].as_u64() {
@@ -364,7 +369,7 @@ pub fn law(args: &[String]) -> i32 {
             }
         } else {
             let ws: Vec<u64> = arr(&case["ws"]).iter().map(u).collect();
-            let d = dyn_build(&ws, if ci % 2 == 0 { 1 } else { 1 << 32 });
+            let d = dyn_build(&ws, c["scale"].as_u64().map_or(if ci % 2 == 0 { 1 } else { 1 << 32 }, |x| x as usize));
             for _ in 0..n {
                 let ob = select_dyn(&d, &pop, &mut rng);
                 match ob["j"].as_u64() {
